@@ -376,7 +376,7 @@ def online_flat(f, sig, cuts=(), **kw):
 def law_stream(ctx):
     from .props import c18
     rng = ctx.subrng("laws-c")
-    for _ in range(ctx.budget(40, 600)):
+    for _ in range(ctx.budget(120, 900)):
         mon = rng.choice(["offc", "offc", "onc"])
         g = DGen(rng, VARS[:2], DENSE_ON if mon == "onc" else DENSE_OFF, max_bound=rng.choice([2, 4]))
         laws = [l for l in c18.laws(rng, g, mon == "onc") if "expansion" not in l[0]]
